@@ -110,6 +110,9 @@ func checkRoundTrip(e *v1x.Env, v int64, universe [][]byte, rng *rand.Rand, ligh
 			}
 		}
 		cfg := v1x.Config{Cache: []int{0, 3, 1000}[rng.Intn(3)], Fast: rng.Intn(2) == 0, Backend: "mem", Flush: []int{0, 300}[rng.Intn(2)]}
+		if e.Cfg.Backend == "prefix" {
+			cfg.Backend = "prefix" // the destination of the import is a prefix view as well
+		}
 		e2, err := v1x.NewEnv(c, cfg)
 		if err != nil {
 			return
@@ -446,6 +449,9 @@ func init() {
 			pl := v1x.MakePlan(c.Rng, p)
 			if v1x.EmptyKeyVariant(pl, c.Index/2) {
 				c.Obs("histories_with_the_empty_key", 1)
+			}
+			if (c.Index/2)%6 == 4 && !big {
+				pl.Cfg.Backend = "prefix" // (PrefixDB over MemDB, prefix slice with spare capacity)
 			}
 			c.Res.Digest = fw.DigestOf("fidelity", big, pl.Cfg, pl.Summary(1000))
 			if c.Index < 4 {
